@@ -121,32 +121,35 @@ Proof.
   apply str_eqb_eq in E. now exists cmd, mech, ps.
 Qed.
 
-(** (d): every answer to an AUTH request is a single line carrying its id,
-    unless the decoded user name falls into the injection class *)
+Lemma user_bad_false u : sasl_user_bad u = false -> contains_byte u LF = false.
+Proof. unfold sasl_user_bad. rewrite !orb_false_iff. tauto. Qed.
+
+(** (d): for EVERY request line and backend outcome, the answer to an AUTH
+    request is a single line carrying its id *)
 Theorem sasl_single_line domain raw b id :
   contains_byte raw LF = false ->
   request_id raw = Some id ->
-  classify_sasl domain raw <> Some F_sasl_reply_injection ->
   single_line (s_wrote (sasl_line domain raw b)) = true
   /\ carries_id id (s_wrote (sasl_line domain raw b)) = true.
 Proof.
-  intros Hlf Hid Hcls.
+  intros Hlf Hid.
   destruct (request_id_inv _ _ Hid) as (cmd & mech & ps & Hs & Hc).
   assert (Hidlf : contains_byte id LF = false).
   { destruct (contains_byte id LF) eqn:E; [|reflexivity].
     assert (In id (split_byte (drop_cr raw) TAB)) by (rewrite Hs; right; now left).
     pose proof (contains_drop_cr _ _ (split_in_sub _ _ _ _ H E)). congruence. }
   rewrite (sasl_line_is_auth domain raw b _ _ _ _ Hs Hc).
-  unfold classify_sasl in Hcls. rewrite (sasl_decoded_is raw _ _ _ _ Hs Hc) in Hcls.
   unfold sasl_auth. destruct (sasl_params ps [] false) as [resp given].
   destruct (str_eqb (to_upper mech) (S_ "PLAIN")) eqn:Em.
   - unfold sasl_plain. destruct (sasl_plain_creds id resp given) as [w|[u p]] eqn:Ec.
     + destruct (plain_creds_inl _ _ _ _ Ec) as (v & rest & -> & Hv & Hr). simpl s_wrote.
       apply line1_wf; auto. unfold verb_ok. tauto.
-    + assert (Hu : contains_byte u LF = false).
-      { unfold sasl_user_ok in Hcls. destruct (contains_byte u LF); [|reflexivity]. simpl in Hcls. congruence. }
-      destruct (accepted b); simpl s_wrote; apply line1_wf; auto; try (unfold verb_ok; tauto);
-        repeat rewrite contains_cons; rewrite ?contains_app, Hu; reflexivity.
+    + destruct (sasl_user_bad u) eqn:Eb.
+      * simpl s_wrote. apply line1_wf; auto. unfold verb_ok. tauto.
+      * pose proof (user_bad_false _ Eb) as Hu.
+        destruct (sasl_authenticate domain u p b) as [bodies ok].
+        destruct ok; simpl s_wrote; apply line1_wf; auto; try (unfold verb_ok; tauto);
+          repeat rewrite contains_cons; rewrite ?contains_app, Hu; reflexivity.
   - destruct (str_eqb (to_upper mech) (S_ "LOGIN")).
     + unfold sasl_login. destruct resp; simpl s_wrote; apply line1_wf; auto; unfold verb_ok; tauto.
     + simpl s_wrote. apply line1_wf; auto; unfold verb_ok; tauto.
@@ -169,24 +172,24 @@ Proof.
   - apply nolf_line; auto. destruct Hv as [-> | ->]; reflexivity.
 Qed.
 
-(** (b) for the SASL service: an OK line is written only after the backend
-    answered 200 to a request carrying exactly the decoded pair, and the
-    answer is then exactly OK <id> user=<decoded user> *)
+(** (b) for the SASL service, for EVERY request line and backend outcome: an
+    OK line is written only after the backend answered 200 to a request built
+    from exactly the decoded pair, and the answer is then exactly
+    OK <id> user=<decoded user>; the backend reads exactly that pair whenever
+    it is valid UTF-8 *)
 Theorem sasl_ok_only_200 domain raw b :
   contains_byte raw LF = false ->
-  classify_sasl domain raw = None ->
   has_ok_line (s_wrote (sasl_line domain raw b)) = true ->
   accepted b = true /\
   exists id u p, sasl_decoded raw = Some (id, u, p)
     /\ s_sent (sasl_line domain raw b) = [build_body (address_of domain u) p]
-    /\ body_exact (build_body (address_of domain u) p) (address_of domain u) p
+    /\ (in_domain domain u p = true -> body_exact (build_body (address_of domain u) p) (address_of domain u) p)
     /\ s_wrote (sasl_line domain raw b) = S_ "OK" ++ TAB :: id ++ TAB :: S_ "user=" ++ u ++ [LF].
 Proof.
-  intros Hlf Hcls Hok.
+  intros Hlf Hok.
   destruct (split_byte (drop_cr raw) TAB) as [|cmd [|id [|mech ps]]] eqn:Hs;
     try (unfold sasl_line in Hok; rewrite Hs in Hok; discriminate Hok).
-  - (* two parts *)
-    unfold sasl_line in Hok; rewrite Hs in Hok.
+  - unfold sasl_line in Hok; rewrite Hs in Hok.
     destruct (str_eqb cmd (S_ "VERSION")); [discriminate Hok|].
     destruct (str_eqb cmd (S_ "CPID")); [discriminate Hok|].
     destruct (str_eqb cmd (S_ "AUTH")); discriminate Hok.
@@ -197,20 +200,22 @@ Proof.
         assert (In id (split_byte (drop_cr raw) TAB)) by (rewrite Hs; right; now left).
         pose proof (contains_drop_cr _ _ (split_in_sub _ _ _ _ H E)). congruence. }
       rewrite (sasl_line_is_auth domain raw b _ _ _ _ Hs Ec) in *.
-      unfold classify_sasl in Hcls. rewrite (sasl_decoded_is raw _ _ _ _ Hs Ec) in *.
+      rewrite (sasl_decoded_is raw _ _ _ _ Hs Ec).
       unfold sasl_auth in *. destruct (sasl_params ps [] false) as [resp given].
       destruct (str_eqb (to_upper mech) (S_ "PLAIN")) eqn:Em.
       * unfold sasl_plain in *. destruct (sasl_plain_creds id resp given) as [w|[u p]] eqn:Ecr.
         -- destruct (plain_creds_inl _ _ _ _ Ecr) as (v & rest & -> & Hv & Hr). simpl s_wrote in Hok.
            rewrite (ok_line_not _ _ _ Hv Hidlf Hr) in Hok. discriminate.
-        -- destruct (sasl_user_ok u) eqn:Eu; [|discriminate Hcls]. cbn [negb] in Hcls.
-           destruct (json_clean (address_of domain u) && json_clean p) eqn:Ej; [|discriminate Hcls].
-           apply andb_true_iff in Ej as [Ej1 Ej2].
-           assert (Hu : contains_byte u LF = false).
-           { unfold sasl_user_ok in Eu. apply andb_true_iff in Eu as [Eu _]. now apply negb_true_iff in Eu. }
+        -- destruct (sasl_user_bad u) eqn:Eb.
+           { simpl s_wrote in Hok. rewrite ok_line_not in Hok; auto; discriminate. }
+           pose proof (user_bad_false _ Eb) as Hu.
+           unfold sasl_authenticate in *. destruct (multi_at u) eqn:Em2.
+           { simpl s_wrote in Hok. rewrite ok_line_not in Hok; auto; [discriminate|].
+             repeat rewrite contains_cons. rewrite ?contains_app, Hu. reflexivity. }
            destruct (accepted b) eqn:Ea.
            ++ split; [reflexivity|]. exists id, u, p. rewrite sasl_email_addr. simpl s_sent. simpl s_wrote.
-              repeat split. now apply body_exact_clean.
+              repeat split. intros D. unfold in_domain in D. apply andb_true_iff in D as [D1 D2].
+              now apply body_exact_valid.
            ++ simpl s_wrote in Hok. rewrite ok_line_not in Hok; auto; [discriminate|].
               repeat rewrite contains_cons. rewrite ?contains_app, Hu. reflexivity.
       * destruct (str_eqb (to_upper mech) (S_ "LOGIN")).
@@ -221,3 +226,15 @@ Proof.
       destruct (str_eqb cmd (S_ "CPID")); [discriminate Hok|].
       change (S_ "AUTH") with S_AUTH in Hok. rewrite Ec in Hok. discriminate Hok.
 Qed.
+
+(** user names with TAB, CR or LF, and user names with more than one '@', are
+    answered FAIL without contacting the backend (the first without echo) *)
+Theorem sasl_bad_user_refused domain id resp given u p b :
+  sasl_plain_creds id resp given = inr (u, p) -> sasl_user_bad u = true ->
+  sasl_plain domain id resp given b =
+  mk_sasl [] (sasl_line1 (S_ "FAIL") id (S_ "reason=Invalid credentials format")).
+Proof. intros E B. unfold sasl_plain. now rewrite E, B. Qed.
+
+Theorem sasl_multi_at_refused domain u p b : multi_at u = true ->
+  sasl_authenticate domain u p b = ([], false).
+Proof. intros M. unfold sasl_authenticate. now rewrite M. Qed.
